@@ -393,7 +393,12 @@ pub fn units(prop: &str, tier: Tier) -> Option<Vec<Unit>> {
                 rec_unit("leftrec", tier),
             ]
         }
-        "C12" => vec![rec_unit("rec-templates", tier), rec_unit("rec-lifecycle", tier), rec_unit("rec-depth", tier), rec_unit("rec-define-twice", tier)],
+        "C12" => vec![
+            e1("krec-generated", format!("generated recursive grammars with guarded self-references: every Krec body (<= {} nodes over just/end/empty/rec_ref under or_not/map/repeated/validate/then/or) that is guarded, built with recursive() and with declare/define, plus two-level nestings whose inner rule refers to the outer one (mutual recursion); the model's native recursion is the unrolling", pick(5, 6)), en::k_rec(pick(5, 6)))
+                .alpha(&['a', 'b'], pick(6, 7))
+                .alarm(ACC | VAL | EXT | EMI | EMC | PSP | PFO | PEX | CHK | PAN | NOE | EMF)
+                .unit(),
+            rec_unit("rec-templates", tier), rec_unit("rec-lifecycle", tier), rec_unit("rec-depth", tier), rec_unit("rec-define-twice", tier)],
         "C13" => {
             let any = ACC | VAL | EXT | EMI | EMC | PSP | PFO | PEX | PCX | CHK | PAN | NOE;
             let dup = |gs: Vec<G>| -> Vec<G> { gs.into_iter().flat_map(|g| [g.clone(), g]).collect() };
